@@ -358,6 +358,23 @@ def run(ctx):
                         continue
                     for ch in chs:
                         record(kind, data, len(data), cs, ch, list(h) + [('endsub',), ('read', -1)], 'exhaustive')
+    # line operations over an alphabet with CR: only LF ends a line (bytes.splitlines() would also split at CR)
+    CR = 13
+    line_targets = [('readline', -1), ('readline', 2), ('readlines', -1), ('readlines', 2), ('readlines', 0), ('iter',)]
+    for n in range(0, 5):
+        for t in itertools.product([A, CR, LF], repeat=n):
+            data = bytes(t)
+            if CR not in t:
+                continue
+            for cs in (1, 2, 3):
+                for p in (None, ('read', 1), ('peek', 2), ('readline', -1)):
+                    for tg in line_targets:
+                        kind = 'async' if tg[0] == 'iter' else 'sync'
+                        if kind == 'async' and p and p[0] == 'readline':
+                            continue
+                        chs = sync_chunkings(len(data), limit=3) if kind == 'sync' else async_chunkings(len(data), 3)[:4]
+                        for ch in chs:
+                            record(kind, data, len(data), cs, ch, ([p] if p else []) + [tg, ('read', -1)], 'lines-cr')
     ctx.extra['exhaustive_scope'] = {'alphabet': alpha, 'max_data': maxdata, 'histories': len(hists),
                                      'datas': len(datas), 'sampled_one_in': every}
     ctx.exhaustive = every == 1
@@ -375,7 +392,8 @@ def run(ctx):
         cs = rng.randint(1, 6)
         cand = [d for d in all_delims if len(d) <= cs]
         d0 = rng.choice(cand)
-        toks = [d0, d0[:-1], d0[1:], d0[:1], bytes([X]), bytes([X, X]), bytes([LF]), bytes([B]), d0 + d0]
+        toks = [d0, d0[:-1], d0[1:], d0[:1], bytes([X]), bytes([X, X]), bytes([LF]), bytes([B]), d0 + d0,
+                bytes([13]), bytes([13, LF])]
         data = b''
         for _ in range(rng.randint(0, 10) if rng.random() < 0.8 else rng.randint(8, 24)):
             data += rng.choice(toks)
